@@ -101,9 +101,13 @@ CLAIMED = {
              "timeout re-enable on every path. Interleavings follow by induction over the per-call contracts. The "
              "config_spec defaults (disable on ball_will_end, service_mode_entered) and disable>enable handler "
              "priorities are re-read every run.",
-        note="Trusted: pyvc encoding, z3; the platform controller's set_*/clear_hw_rule are ASSUMED contracts "
-             "(core/platform_controller.py and the platform back ends are not verified); devices own disjoint "
-             "pairs (A-CONFIG); rule parameter getters are opaque. The game-lifecycle clause (tilt, service, no game) "
+        note="The contracts of PlatformController.set_*_rule / clear_hw_rule that the device proofs assume are themselves "
+             "proved (second contract set: PC1-PC3: one platform call for exactly the pairs given, the returned "
+             "HardwareRule holds what was written, clear removes exactly that) and below them the virtual platform's "
+             "rule table (V1, V2); the ghost 'installed pairs' of the device proofs and the HardwareRule of PC1-PC3 "
+             "are linked by the assumed model only. Trusted: pyvc encoding, z3; real hardware platforms; devices own "
+             "disjoint pairs (A-CONFIG); rule parameter getters are opaque. The flipper invariant allows a prefix of "
+             "the wiring table after a platform fault in enable(). The game-lifecycle clause (tilt, service, no game) "
              "rests on the spec defaults plus C06's event order and is not a VC. AutofireCoil._hit abstracts the "
              "hit-time filter as 'some subsequence'.",
         ref="4.C10"),
